@@ -8,7 +8,7 @@ root, current key, filter context at any depth, in/contains, =~ with flags, unde
 from __future__ import annotations
 
 from rt import gen, hooks, impl, ref_jsonpath as ref, ref_regex
-from rt.jp_oracle import check_query_case
+from rt.jp_oracle import check_compound_case, check_query_case
 from rt.jsonval import canon
 from rt.render import Renderer
 
@@ -141,6 +141,20 @@ def run(spec, ctx):
             for doc in docs2:
                 both_spellings(ctx, ast, doc, extra, "directed")
         ctx.count("directed_templates", len(asts))
+        # the fake root in every operand position of compound queries
+        fr = ["q", "^", [["child", [["filter", ["cmp", "==", ["sq", Q("@", name("b"))], ["lit", 1]]]]]]]
+        fr2 = ["q", "^", [["child", [["index", 0]]], ["child", [["name", "a"]]]]]
+        plain = [Q("$", name("a")), ["q", "$", []], ["q", "$", [["child", [["wild"]]]]]]
+        cdocs = [{"a": 5, "b": 1}, {"a": 5, "b": 2}, [{"a": 1, "b": 1}], {"a": {"a": 5, "b": 1}, "b": 1}]
+        comps = []
+        for p in plain:
+            for f in (fr, fr2):
+                for op in "|&":
+                    comps += [[p, [op, f]], [f, [op, p]], [f, [op, f]], [p, [op, p], [op, f]], [p, [op, f], [op, p]], [f, [op, p], ["|", f]]]
+        for comp in comps:
+            for doc in cdocs:
+                for al in (False, True):
+                    check_compound_case(ctx, comp, doc, Renderer(r, blanks=0.1, alias=al).compound(comp), "compound-fake-root", extra=extra)
     else:
         for i in range(spec["n"]):
             names = r.sample(["a", "b", "c", "k", "v", "é", "0"], r.randint(2, 4))
@@ -159,6 +173,12 @@ def run(spec, ctx):
             if r.random() < 0.3:
                 ex = {"k": r.choice([2, "a", None]), "list": [r.choice(gen.MEM_LEAVES) for _ in range(3)], "o": {n: 1 for n in names}, "s": r.choice(fg.witnesses or ["ab"]), "names": names}
             both_spellings(ctx, ast, doc, ex, "random", n=1)
+            if r.random() < 0.25:
+                other = ["q", r.choice(["^", "$"]), [["child", [["wild"]]]] if r.random() < 0.5 else gen.gen_segments(r, names, max_segs=2, keys=True) or [["child", [["wild"]]]]]
+                comp = [ast, [r.choice("|&"), other]] if r.random() < 0.5 else [other, [r.choice("|&"), ast]]
+                if r.random() < 0.3:
+                    comp.append([r.choice("|&"), ["q", "^", [["child", [["index", 0]]]]]])
+                check_compound_case(ctx, comp, doc, Renderer(r, blanks=0.1, alias=r.random() < 0.5).compound(comp), "compound-random", extra=ex)
     for k, v in hooks.STATE.sel_matrix.items():
         ctx.cell("H1_selector_x_kind", "|".join(k), v)
     for k, v in hooks.STATE.cmp_matrix.items():
@@ -183,6 +203,9 @@ def finalize(m, tier):
 
 def replay(case, ctx):
     install()
+    if "comp" in case:
+        check_compound_case(ctx, case["comp"], case["doc"], case["text"], case.get("class", "replay"), extra=case.get("extra"))
+        return
     check_query_case(ctx, case["ast"], case["doc"], case["text"], case.get("class", "replay"), extra=case.get("extra"))
     if case.get("std"):
         check_query_case(ctx, case["ast"], case["doc"], case["std"], "replay:std", extra=case.get("extra"))
